@@ -73,6 +73,9 @@ type Opts struct {
 	BackwardsClock bool
 	VersionSeed    int64
 	ExistingDir    bool // reopen: do not wipe Dir
+	// Faults wraps the file systems of the s3afero kinds (fs-mm, fs-dir, single-mm, single-dir) so
+	// that chosen calls fail; see FaultPlan.
+	Faults *FaultPlan
 }
 
 type Server struct {
@@ -145,7 +148,7 @@ func NewServer(o Opts) (*Server, error) {
 		}
 		be = s3bolt.New(db, bo...)
 	case FsMM:
-		b, err := s3afero.MultiBucket(afero.NewMemMapFs())
+		b, err := s3afero.MultiBucket(NewFaultFs(afero.NewMemMapFs(), "data", o.Faults))
 		if err != nil {
 			return nil, err
 		}
@@ -155,13 +158,17 @@ func NewServer(o Opts) (*Server, error) {
 		if err != nil {
 			return nil, err
 		}
-		b, err := s3afero.MultiBucket(fs)
+		b, err := s3afero.MultiBucket(NewFaultFs(fs, "data", o.Faults))
 		if err != nil {
 			return nil, err
 		}
 		be = b
 	case SingleMM:
-		b, err := s3afero.SingleBucket(SingleName, afero.NewMemMapFs(), nil)
+		var mfs afero.Fs
+		if o.Faults != nil {
+			mfs = NewFaultFs(afero.NewMemMapFs(), "meta", o.Faults)
+		}
+		b, err := s3afero.SingleBucket(SingleName, NewFaultFs(afero.NewMemMapFs(), "data", o.Faults), mfs)
 		if err != nil {
 			return nil, err
 		}
@@ -175,7 +182,7 @@ func NewServer(o Opts) (*Server, error) {
 		if err != nil {
 			return nil, err
 		}
-		b, err := s3afero.SingleBucket(SingleName, fs, mfs)
+		b, err := s3afero.SingleBucket(SingleName, NewFaultFs(fs, "data", o.Faults), NewFaultFs(mfs, "meta", o.Faults))
 		if err != nil {
 			return nil, err
 		}
